@@ -40,6 +40,8 @@ impl<'a, 'b, 'c> AdtDeserializer<'a, 'b, 'c> {
         context: &'b mut DeserializationContext<'c>,
         stored_version: u8,
     ) -> Result<Self> {
+        #[cfg(desert_verif)]
+        crate::verif::point("AdtDeserializer::new");
         let mut serialized_evolution_steps = Vec::with_capacity(stored_version as usize + 1);
         for _ in 0..=stored_version {
             let serialized_evolution_step = SerializedEvolutionStep::deserialize(context)?;
@@ -88,6 +90,8 @@ impl<'a, 'b, 'c> AdtDeserializer<'a, 'b, 'c> {
         field_name: &str,
         field_default: Option<T>,
     ) -> Result<T> {
+        #[cfg(desert_verif)]
+        crate::verif::point("AdtDeserializer::read_field");
         if self.removed_fields.contains(field_name) {
             Err(Error::FieldRemovedInSerializedVersion(
                 field_name.to_string(),
